@@ -262,10 +262,15 @@ impl<'a> Ctx<'a> {
                 return Resolved::Const(cc[0].clone());
             }
         }
+        if let Some(full) = self.expand_first(segs) {
+            if full.len() >= 2 && (full.contains(&"f64".to_string()) || full[0] == "core" || full[0] == "std") {
+                return Resolved::Special(full.join("::"));
+            }
+        }
         Resolved::Unknown(segs.join("::"))
     }
 
-    fn expand_first(&self, segs: &[String]) -> Option<Vec<String>> {
+    pub fn expand_first(&self, segs: &[String]) -> Option<Vec<String>> {
         let first = &segs[0];
         let mut out: Vec<String>;
         if first == "crate" {
